@@ -1,11 +1,14 @@
 // C14 — JWT assertions and request objects count only when signed by the named client.
 //
-// Engine E1 (bounded-exhaustive product / deviation enumeration), seven parts:
+// Engine E1 (bounded-exhaustive product / deviation enumeration), eight parts:
 //
-//	verify   op.VerifyJWTAssertion directly (default / custom SubjectCheck / KeySet verifier)
+//	verify   op.VerifyJWTAssertion and op.ClientJWTAuth directly (default / custom SubjectCheck /
+//	         KeySet verifier)
 //	endpoint the same assertions as client_assertion on the token endpoint (code, refresh),
-//	         introspection, revocation, device authorization, and as jwt-bearer grant
+//	         introspection, revocation, device authorization, and as jwt-bearer grant; stock
+//	         provider and a provider whose verifier has a subject check tolerating sub != iss
 //	reqobj   signed request objects on /authorize (both routers, feature on / off)
+//	reqobj-rt  the same with multi-valued outer response types x relation of the object's
 //	interop  assertions made by the library's own client helpers, presented to the provider
 //	history-verify / history-endpoint / history-reqobj (history_test.go): all sequences of
 //	         2 (thorough 3) calls over a forgery alphabet on ONE long-lived verifier / provider,
